@@ -237,6 +237,28 @@ func structCasesV(c *runner.Ctx, k int, kd kindT, firstPrefix string) {
 				e.Field(3).Set(other.Addr())
 				run1("embedded+outer", e.Addr().Interface(), true)
 			}
+			// map entries under long keys that agree in their first 40 characters: still one object per entry
+			{
+				lk := reflect.MakeMap(reflect.MapOf(reflect.TypeOf(""), reflect.PtrTo(st)))
+				pre := "tenant:acme-holding:region:eu-west-1:zone:b:user:"
+				lk.SetMapIndex(reflect.ValueOf(pre+"1001"), obj.Addr())
+				lk.SetMapIndex(reflect.ValueOf(pre+"1002"), other.Addr())
+				run1("map-entries-long-keys", lk.Interface(), diff)
+				lkv := reflect.MakeMap(reflect.MapOf(reflect.TypeOf(""), st))
+				lkv.SetMapIndex(reflect.ValueOf(pre+"1001"), other)
+				lkv.SetMapIndex(reflect.ValueOf(pre+"1002"), obj)
+				holder := reflect.StructOf([]reflect.StructField{{Name: "ByKey", Type: lkv.Type(), Tag: `valid:"exist"`}})
+				hv := reflect.New(holder).Elem()
+				hv.Field(0).Set(lkv)
+				run1("map-field-long-keys", hv.Addr().Interface(), diff)
+			}
+			// the same object again right after a call that gave one member another rule for that call only
+			{
+				o2 := mk(va)
+				_ = valid.Struct(o2.Addr().Interface(), valid.RM{"F0": "required|only-for-that-call"})
+				o3 := mk(va)
+				run1("struct-after-override", o3.Addr().Interface(), false)
+			}
 			// one object reachable along several paths (two pointer fields, twice in a slice, under two map keys): an
 			// object of its own at every place it is met
 			{
